@@ -294,10 +294,25 @@ func (env *Env) binary(e *Expr) SV {
 	if op == "==>" {
 		a := env.eval(e.Args[0])
 		b := env.eval(e.Args[1])
+		if a.T == nil {
+			a.T = env.x.freshVar("norecord", SBool)
+		}
+		if b.T == nil {
+			b.T = env.x.freshVar("norecord", SBool)
+		}
 		return SV{T: Implies(env.asBool(a), env.asBool(b)), Ty: types.Typ[types.Bool]}
 	}
 	a := env.eval(e.Args[0])
 	b := env.eval(e.Args[1])
+	if (op == "&&" || op == "||") && env.err == nil {
+		// an unknown call record used as a boolean (no such call on this path): unconstrained
+		if a.T == nil {
+			a.T = env.x.freshVar("norecord", SBool)
+		}
+		if b.T == nil {
+			b.T = env.x.freshVar("norecord", SBool)
+		}
+	}
 	if env.err != nil {
 		return SV{T: True}
 	}
